@@ -509,6 +509,26 @@ fn c05_case<A: Subject>(run: &Run, cfg: &Cfg, st: &Start, word: &[Op], cut: usiz
     let _ = arena.flush();
   }
   drop(arena);
+  // an arena that starts at an offset of its file: the bytes in front of it, and (when the reopen names the same
+  // capacity) bytes appended behind it, belong to somebody else and must survive every kind of reopen
+  let foff = cfg.file_offset as usize;
+  let trailer = foff > 0 && capo == CapOpt::Same;
+  if foff > 0 {
+    let mut f = std::fs::read(&path).unwrap();
+    if f.len() < foff + cfg.cap as usize {
+      bad("file-too-short", format!("file has {} bytes, arena window is [{}, {})", f.len(), foff, foff + cfg.cap as usize));
+      let _ = std::fs::remove_file(&path);
+      return true;
+    }
+    for (i, b) in f[..foff].iter_mut().enumerate() {
+      *b = 0x5A ^ (i as u8);
+    }
+    if trailer {
+      f.truncate(foff + cfg.cap as usize);
+      f.extend((0..64u8).map(|i| 0xA7 ^ i));
+    }
+    std::fs::write(&path, &f).unwrap();
+  }
   let on_disk = std::fs::read(&path).unwrap();
   // ---- reopen
   // a read-only open takes the free-list kind from the file: the opener's options name another one
@@ -649,6 +669,16 @@ fn c05_case<A: Subject>(run: &Run, cfg: &Cfg, st: &Start, word: &[Op], cut: usiz
       bad("read-only-changed-file", "file changed by a read-only session".into());
     }
   }
+  if foff > 0 {
+    let after = std::fs::read(&path).unwrap_or_default();
+    if after.len() < foff || after[..foff] != on_disk[..foff] {
+      bad("outside-window-changed", format!("the {} bytes of the file in front of the arena (file offset {}) changed", foff, foff));
+    }
+    let t0 = foff + cfg.cap as usize;
+    if trailer && (after.len() < t0 + 64 || after[t0..t0 + 64] != on_disk[t0..t0 + 64]) {
+      bad("outside-window-changed", format!("the bytes of the file behind the arena window [{}, {}) changed (file length {} -> {})", foff, t0, on_disk.len(), after.len()));
+    }
+  }
   run.nontrivial.insert(hash_of(&(A::SYNC, cfg, &st.name, word, cut, mode, capo)));
   let _ = std::fs::remove_file(&path);
   drop(twin);
@@ -739,16 +769,27 @@ pub fn check_c05(tier: Tier) -> i32 {
       }
     }
   }
-  par_for_each(&items, |_, (c, sync)| {
+  // arenas that start at a page-aligned offset of their file (foreign bytes in front of and behind the window)
+  let depth_off = if thorough { 3 } else { 2 };
+  let mut items: Vec<(Cfg, bool, usize)> = items.into_iter().map(|(c, s)| (c, s, depth)).collect();
+  for fl in Fl::ALL {
+    for sync in [true, false] {
+      let mut c = Cfg::new(fl, Backend::File, true, 256);
+      c.file_offset = 4096;
+      c.magic = 9;
+      items.push((c, sync, depth_off));
+    }
+  }
+  par_for_each(&items, |_, (c, sync, depth)| {
     if *sync {
-      c05_cell::<sync::Arena>(&run, c, &alphabet, depth, thorough)
+      c05_cell::<sync::Arena>(&run, c, &alphabet, *depth, thorough)
     } else {
-      c05_cell::<unsync::Arena>(&run, c, &alphabet, depth, thorough)
+      c05_cell::<unsync::Arena>(&run, c, &alphabet, *depth, thorough)
     }
   });
   run.sample(|| json!({"cfg": "sync Pessimistic file arena, reserved 5", "start": "full-2eq", "history": "B(7) D0 | close (no flush) + map_mut without capacity | B(40)", "checked": "state tuple, free list, bytes below the cursor, then the continuation B(40) on the reopened arena vs. on a twin that was never closed, shadow heap carried across the reopen"}));
-  run.rule("every history of depth 3 over the stated alphabet from 3 start states, cut at every position 0..=3 by close (with / without flush) + reopen; quick: 2 reopen variants per (history, cut) rotating over the 4 modes x 3 capacity options x create flag, thorough: all 12 mode x capacity variants; writable reopens continue the history against a never-closed twin (per-step observation equality) under the shadow / zero / policy / accounting oracles; read-only reopens must refuse allocation and leave the file untouched; evaluations = reopens");
-  run.set("bounds", json!({"depth": depth, "alphabet": alphabet.iter().map(|o| o.short()).collect::<Vec<_>>(), "cells": items.len()}));
+  run.rule("every history of depth 3 over the stated alphabet from 3 start states, cut at every position 0..=3 by close (with / without flush) + reopen; quick: 2 reopen variants per (history, cut) rotating over the 4 modes x 3 capacity options x create flag, thorough: all 12 mode x capacity variants; writable reopens continue the history against a never-closed twin (per-step observation equality) under the shadow / zero / policy / accounting oracles; read-only reopens must refuse allocation and leave the file untouched; 6 more cells place the arena at file offset 4096 (histories of depth 2, thorough 3) with foreign bytes in front of and behind its window, which every reopen must leave alone; evaluations = reopens");
+  run.set("bounds", json!({"depth": depth, "depth_of_offset_cells": depth_off, "alphabet": alphabet.iter().map(|o| o.short()).collect::<Vec<_>>(), "cells": items.len()}));
   run.finish()
 }
 
